@@ -151,11 +151,15 @@ pub fn execute(case: &Case) -> (Vec<Finding>, u64) {
         }
     }
     // (2) through a simulation builder, configuration included before and after the nodes exist
-    for (before, readers) in [(true, false), (false, false), (true, true)] {
+    for (before, readers, stack_after_cfg) in [(true, false, false), (false, false, false), (true, true, false), (true, false, true)] {
         let r = vcommon::catch(|| {
             let mut sim = Sim::new(());
             if before {
                 sim.include_cfg(&yaml);
+            }
+            if stack_after_cfg {
+                // a builder option applied between the include and the creation of the nodes
+                sim = sim.with_stack(des::net::processing::ProcessingStack::default);
             }
             let mut created: BTreeSet<String> = BTreeSet::new();
             for path in &case.paths {
@@ -185,6 +189,7 @@ pub fn execute(case: &Case) -> (Vec<Finding>, u64) {
             out
         });
         let how = match (before, readers) {
+            (true, false) if stack_after_cfg => "include_cfg, then with_stack, then node creation",
             (true, false) => "include_cfg before node creation",
             (true, true) => "include_cfg before node creation, the node reads its properties while it is constructed",
             _ => "include_cfg after node creation",
